@@ -156,7 +156,7 @@ func GenProgram(t *rapid.T, c GenCfg) Program {
 	for i := 0; i < n; i++ {
 		op := Op{Kind: rapid.SampledFrom(kinds).Draw(t, "kind")}
 		switch op.Kind {
-		case "fill", "l0l0", "churn", "deepen", "l0shape", "l0big", "gcrace":
+		case "fill", "l0l0", "churn", "deepen", "l0shape", "l0big", "gcrace", "delsweep":
 			open[3] = 0
 		case "reopen":
 			open = [4]int{}
@@ -232,6 +232,19 @@ func GenProgram(t *rapid.T, c GenCfg) Program {
 				}
 			}
 			p.Ops = append(p.Ops, Op{Kind: "flush"}, Op{Kind: "compact", A: 0, B: 1}, Op{Kind: "gc", F: 0.001})
+			continue
+		case "delsweep": // macro (backup checks): incremental backup, a run of consecutive keys deleted while a reader holds the watermark, flush, L0 compaction (markers kept), incremental backup
+			start := rapid.IntRange(0, nk-1).Draw(t, "start")
+			cnt := rapid.IntRange(2, 8).Draw(t, "cnt")
+			open[0] = 0
+			p.Ops = append(p.Ops, Op{Kind: "backup", A: 1, B: rapid.IntRange(0, 63).Draw(t, "xb")},
+				Op{Kind: "begin", T: 0, Ts: uint64(rapid.IntRange(1, 60).Draw(t, "rts"))},
+				Op{Kind: "begin", T: 3, RW: true, Ts: uint64(rapid.IntRange(1, 60).Draw(t, "rts"))})
+			for j := 0; j < cnt; j++ {
+				p.Ops = append(p.Ops, Op{Kind: "del", T: 3, Key: start + j})
+			}
+			p.Ops = append(p.Ops, Op{Kind: "commit", T: 3, Ts: uint64(rapid.IntRange(1, 60).Draw(t, "cts"))}, Op{Kind: "flush"},
+				Op{Kind: "compact", A: 0, B: 1}, Op{Kind: "backup", A: 1, B: rapid.IntRange(0, 63).Draw(t, "xb2")}, Op{Kind: "discard", T: 0})
 			continue
 		case "gcrace": // macro: churn, then a GC whose rewrite is paused while other ops run (delete + compaction, new iterators)
 			start := rapid.IntRange(0, nk-1).Draw(t, "start")
